@@ -42,7 +42,33 @@ type trip struct {
 	Faulted     string
 	Rewritten   string // what the multi-status rewrite did
 	body        *FaultBody
+	endless     *endlessBody
 }
+
+// endlessBody is an error page that never ends (a misbehaving proxy, a
+// streaming endpoint). A client must not try to read it to its end. After
+// endlessLimit bytes it gives up with an error so that the run terminates.
+type endlessBody struct {
+	n       int
+	Runaway bool
+}
+
+const endlessLimit = 4 << 20
+
+var errRunaway = errors.New("vsim: the endless body was read past 4 MiB")
+
+func (e *endlessBody) Read(p []byte) (int, error) {
+	if e.n > endlessLimit {
+		e.Runaway = true
+		return 0, errRunaway
+	}
+	for i := range p {
+		p[i] = "All work and no play makes the proxy a dull boy. "[(e.n+i)%49]
+	}
+	e.n += len(p)
+	return len(p), nil
+}
+func (e *endlessBody) Close() error { return nil }
 
 type c14Transport struct {
 	ex     *executor
@@ -153,6 +179,14 @@ func (tr *c14Transport) RoundTrip(creq *http.Request) (*http.Response, error) {
 		case "status-html":
 			t.Status, t.Body = f.Arg, []byte("<html><body><h1>Proxy error</h1></body></html>")
 			t.Header = http.Header{"Content-Type": {"text/html"}}
+		case "status-endless-text", "status-endless-html", "status-endless-opaque", "status-endless-notype":
+			t.Status, t.Body = f.Arg, nil
+			ct := map[string]string{"status-endless-text": "text/plain; charset=utf-8", "status-endless-html": "text/html", "status-endless-opaque": "application/octet-stream"}[f.Kind]
+			t.Header = http.Header{}
+			if ct != "" {
+				t.Header.Set("Content-Type", ct)
+			}
+			t.endless = &endlessBody{}
 		case "status-keep-body":
 			t.Status = f.Arg
 		case "cut-eof", "cut-error":
@@ -173,6 +207,9 @@ func (tr *c14Transport) RoundTrip(creq *http.Request) (*http.Response, error) {
 		}
 	}
 	var body io.ReadCloser = io.NopCloser(bytes.NewReader(t.Body))
+	if t.endless != nil {
+		body = t.endless
+	}
 	if t.CutAt >= 0 {
 		kind := "clean-eof"
 		if t.CutKind == "cut-error" {
@@ -323,7 +360,37 @@ var multistatusCalls = map[string]bool{"FindCurrentUserPrincipal": true, "Stat":
 // bodyCalls are the calls that interpret the response body.
 var bodyCalls = map[string]bool{"Open": true, "GetCalendarObject": true, "GetAddressObject": true}
 
-func (ex *executor) doCall(ctx context.Context, c *DavCall, hc webdav.HTTPClient, endpoint string) (res callResult) {
+// clientSet holds one client of each package on one HTTP client and endpoint.
+type clientSet struct {
+	wd   *webdav.Client
+	cal  *caldav.Client
+	card *carddav.Client
+}
+
+func newClientSet(hc webdav.HTTPClient, endpoint string) (*clientSet, error) {
+	var cs clientSet
+	var err error
+	if cs.wd, err = webdav.NewClient(hc, endpoint); err != nil {
+		return nil, err
+	}
+	if cs.cal, err = caldav.NewClient(hc, endpoint); err != nil {
+		return nil, err
+	}
+	if cs.card, err = carddav.NewClient(hc, endpoint); err != nil {
+		return nil, err
+	}
+	return &cs, nil
+}
+
+func (ex *executor) doCall(ctx context.Context, c *DavCall, hc webdav.HTTPClient, endpoint string) callResult {
+	cs, err := newClientSet(hc, endpoint)
+	if err != nil {
+		return callResult{Err: err}
+	}
+	return doCallWith(ctx, c, cs)
+}
+
+func doCallWith(ctx context.Context, c *DavCall, cs *clientSet) (res callResult) {
 	defer func() {
 		if r := recover(); r != nil {
 			res.Panic = fmt.Sprintf("%v\n%s", r, debug.Stack())
@@ -331,11 +398,7 @@ func (ex *executor) doCall(ctx context.Context, c *DavCall, hc webdav.HTTPClient
 	}()
 	switch c.Client {
 	case "webdav":
-		cl, err := webdav.NewClient(hc, endpoint)
-		if err != nil {
-			res.Err = err
-			return
-		}
+		cl := cs.wd
 		switch c.Fn {
 		case "FindCurrentUserPrincipal":
 			p, err := cl.FindCurrentUserPrincipal(ctx)
@@ -383,11 +446,7 @@ func (ex *executor) doCall(ctx context.Context, c *DavCall, hc webdav.HTTPClient
 			res.Err = cl.Move(ctx, c.Path, c.Dest, &webdav.MoveOptions{NoOverwrite: c.Flag})
 		}
 	case "caldav":
-		cl, err := caldav.NewClient(hc, endpoint)
-		if err != nil {
-			res.Err = err
-			return
-		}
+		cl := cs.cal
 		calItem := func(o *caldav.CalendarObject) callItem {
 			return callItem{Path: o.Path, HasData: o.Data != nil, Fields: fields("etag", o.ETag != "", "modtime", !o.ModTime.IsZero(), "size", o.ContentLength != 0)}
 		}
@@ -444,11 +503,7 @@ func (ex *executor) doCall(ctx context.Context, c *DavCall, hc webdav.HTTPClient
 			}
 		}
 	case "carddav":
-		cl, err := carddav.NewClient(hc, endpoint)
-		if err != nil {
-			res.Err = err
-			return
-		}
+		cl := cs.card
 		cardItem := func(o *carddav.AddressObject) callItem {
 			return callItem{Path: o.Path, HasData: o.Card != nil, Fields: fields("etag", o.ETag != "", "modtime", !o.ModTime.IsZero(), "size", o.ContentLength != 0)}
 		}
@@ -625,6 +680,12 @@ func (ex *executor) callStep(idx int, st *Step) {
 		ex.res.Stats.Panics++
 		bad("panic", "the client call panicked: "+res.Panic)
 		return
+	}
+	for _, t := range tr.trips {
+		if t.endless != nil && t.endless.Runaway {
+			bad("hang", fmt.Sprintf("the server answered %d with an error page that never ends; the call read more than %d bytes of it instead of returning (against a real server it would never return)", t.Status, endlessLimit))
+			return
+		}
 	}
 	if last == nil {
 		if res.Err == nil {
